@@ -51,6 +51,7 @@ type Engine struct {
 	fileHashes    map[string]string
 	mu            sync.Mutex
 	loadErrs      []string
+	noPrune       bool
 }
 
 func goEnv() []string {
@@ -598,7 +599,12 @@ func (e *Engine) intModeBitop(x *Exec, op token.Token, a, b *Term, t types.Type)
 	return nil
 }
 
-func (e *Engine) quickFeasible(x *Exec, st *State) bool { return true }
+func (e *Engine) quickFeasible(x *Exec, st *State) bool {
+	if x.feas == nil {
+		return true
+	}
+	return x.feas.feasible(x.w, st.pc)
+}
 
 func (e *Engine) inlinable(fn *ssa.Function) bool {
 	return fn.Blocks != nil && e.inRepo(fn) && e.loopInfo(fn) == nil
